@@ -299,8 +299,6 @@ class G:
         t = self.fresh("pad")
         return [
             f"{t}: f32[8]",
-            "for k in seq(0, 8):",
-            f"    {t}[k] = 0.0",
             "for k in seq(0, 4):",
             f"    {t}[k] = x[0] * {self.const()}",
             "for k in seq(0, 8):",
@@ -414,6 +412,22 @@ class G:
             out += [f"{self.fresh('unused')}: f32[4]"]
         return out
 
+    def m_prefix(self):
+        """running sum: reduce, read of the running value, reduce again."""
+        r = self.r
+        self.use("x", "y")
+        if r.random() < 0.6:
+            acc = self.fresh("run")
+            out = [f"{acc}: f32", f"{acc} = 0.0", "for i in seq(0, n):", f"    {acc} += x[i]", f"    y[i] = {acc}"]
+            if r.random() < 0.7:
+                out.append(f"    {acc} += {self.const()}")
+            return out
+        self.use("z")
+        out = ["for i in seq(0, n):", "    y[0] += x[i]", "    z[i] = y[0]"]
+        if r.random() < 0.7:
+            out.append(f"    y[0] += {self.const()}")
+        return out
+
     def m_fold(self):
         self.use("x", "y")
         c = self.const()
@@ -427,7 +441,7 @@ class G:
     MOTIFS = [
         "elementwise", "nest2d", "temp", "accum", "stencil", "guard", "small", "vec4", "call", "window",
         "two_loops", "reduce_consts", "repeat", "padded_acc", "row_alloc", "masked", "shift_copy", "else_alloc",
-        "two_ifs", "instr_calls", "sliding", "temp2d", "fold",
+        "two_ifs", "instr_calls", "sliding", "temp2d", "fold", "prefix",
     ]
 
     def program(self, name="p"):
